@@ -369,7 +369,7 @@ type yieldRule struct {
 }
 
 func (r *yieldRule) Inline(*ssa.Function) bool { return false }
-func (r *yieldRule) PredOK(string) bool         { return true }
+func (r *yieldRule) PredOK(string) bool        { return true }
 
 // sigma: [0] error stored into the shared result cell (n / e), [1] callback calls (0..2)
 func (r *yieldRule) OnInstr(e *Engine, st *State, fc *FrameCtx, in ssa.Instruction) bool {
@@ -487,7 +487,7 @@ type rowsRule struct {
 }
 
 func (r *rowsRule) Inline(fn *ssa.Function) bool { return false }
-func (r *rowsRule) PredOK(string) bool            { return false }
+func (r *rowsRule) PredOK(string) bool           { return false }
 
 func hasNextErr(t types.Type) bool {
 	ms := types.NewMethodSet(t)
@@ -875,7 +875,7 @@ type memPollRule struct {
 }
 
 func (r *memPollRule) Inline(fn *ssa.Function) bool { return PkgOf(fn) == PkgBus }
-func (r *memPollRule) PredOK(string) bool            { return false }
+func (r *memPollRule) PredOK(string) bool           { return false }
 
 func (r *memPollRule) OnInstr(e *Engine, st *State, fc *FrameCtx, in ssa.Instruction) bool {
 	if _, _, _, isPoll := ctxDoneSelect(in); isPoll {
